@@ -313,10 +313,16 @@ impl DnsCache {
             .find(|(_idx, r)| r.record.matches(incoming.as_ref()))
         {
             Some((i, r)) => {
+                // A record that was only kept to expire (TTL 1: a goodbye, or a
+                // record first heard with TTL 1) and is advertised again is new
+                // for the listeners: nothing was reported for it yet.
+                let revived =
+                    r.record.get_record().get_ttl() <= 1 && incoming.get_record().get_ttl() > 1;
+
                 // It is possible that this record was just updated in cache_flush
                 // processing. That's okay. We can still reset here.
                 r.record.reset_ttl(incoming.as_ref());
-                (i, false)
+                (i, revived)
             }
             None => {
                 let new_record = DnsRecordIntf {
